@@ -382,6 +382,9 @@ package bufimageutil
 //
 //@ func (t *transitiveClosure) exploreOptionSingularValueForAny(msg, referrerFile, imageIndex, opts) (err)
 //@   property C12
+// an Any payload is looked up under the LAST segment of its type URL ("the last segment of the URL's path must represent
+// the fully qualified name of the type", any.proto), whatever the prefix before it looks like
+//@   assert before "d, _ := imageIndex.ByName[msgType]" payload-type-is-the-last-url-segment: hasSuffix(typeURL, msgType) && (len(msgType) == len(typeURL) || strAt(typeURL, len(typeURL) - len(msgType) - 1) == "/") && (strings.LastIndexByte(typeURL, 47) >= 0 ==> !contains(msgType, "/"))
 //@   reveal l_needsKept
 //@   modifies heap, ghost.l_kept, ghost.l_optRead, ghost.l_impTo, ghost.l_impCount
 //@   ensures kept-monotone: forall d ref :: d in old(ghost.l_kept) ==> d in ghost.l_kept
